@@ -25,7 +25,12 @@ def outcome(s, **kw):
     try:
         with warnings.catch_warnings():
             warnings.simplefilter('ignore')
-            return ('ok', sf.decoder(s, **kw))
+            r = sf.decoder(s, **kw)
+            if isinstance(r, tuple):
+                # attribute=True: (smiles, attribution maps); input positions count symbols ignoring [nop] and '.',
+                # so the whole returned value is covered by the property
+                r = (r[0], [(m.index, m.token, [(a.index, a.token) for a in (m.attribution or [])]) for m in r[1]])
+            return ('ok', r)
     except sf.DecoderError:
         return ('DecoderError',)
     except Exception as e:
@@ -73,6 +78,8 @@ def floor(ctx):
     jobs = [(ch, {}) for ch in chunks(toks, 24)]
     sub = toks[::7]
     jobs += [(ch, {'compatible': True}) for ch in chunks(sub, 8)]
+    jobs += [(ch, {'attribute': True}) for ch in chunks(toks[3::7], 8)]
+    jobs += [(ch, {'attribute': True, 'compatible': True}) for ch in chunks(toks[5::23], 4)]
     res = pmap(_work, jobs)
     ev = sum(r[0] for r in res)
     nt = sum(r[1] for r in res)
@@ -89,24 +96,36 @@ def floor(ctx):
         if a != b and len(viol) < 6:
             viol.append({'clause': 'C13:nop-invisible', 'input': {'original': s, 'padded': padded, 'flags': {}},
                          'detail': 'original -> %r, padded -> %r' % (a, b)})
-        # padding through the encoding utilities
+        for fl in ({'attribute': True},):
+            if _ % 4 == 0:
+                ev += 1
+                a2, b2 = outcome(s, **fl), outcome(padded, **fl)
+                if a2 != b2 and len(viol) < 6:
+                    viol.append({'clause': 'C13:nop-invisible', 'input': {'original': s, 'padded': padded, 'flags': fl},
+                                 'detail': 'original -> %r, padded -> %r' % (a2, b2)})
+        # padding through the encoding utilities: of the original and of the string that already holds [nop]s
+        if _ % 2:
+            s_enc, n_enc = padded, len(re.findall(r'\[[^\]]*\]|\.', padded))
+        else:
+            s_enc, n_enc = s, len(toks2)
         alphabet = sorted(set(toks2) | {'[nop]', '.'})
         rnd.shuffle(alphabet)
         stoi = {t: i for i, t in enumerate(alphabet)}
         itos = {i: t for t, i in stoi.items()}
-        pad = len(toks2) + rnd.choice([0, 1, 5])
+        pad = n_enc + rnd.choice([0, 1, 5, -3])
         try:
             if rnd.random() < 0.5:
-                lab = sf.selfies_to_encoding(s, stoi, pad_to_len=pad, enc_type='label')
+                lab = sf.selfies_to_encoding(s_enc, stoi, pad_to_len=pad, enc_type='label')
                 back = sf.encoding_to_selfies(lab, itos, 'label')
             else:
-                hot = sf.selfies_to_encoding(s, stoi, pad_to_len=pad, enc_type='one_hot')
+                hot = sf.selfies_to_encoding(s_enc, stoi, pad_to_len=pad, enc_type='one_hot')
                 back = sf.encoding_to_selfies(hot, itos, 'one_hot')
             c = outcome(back)
         except Exception as e:
             back, c = None, ('encoding-raised', repr(e))
         if c != a and len(viol) < 6:
-            viol.append({'clause': 'C13:encoding-padding', 'input': {'original': s, 'padded': back, 'flags': {}},
+            viol.append({'clause': 'C13:encoding-padding', 'input': {'original': s, 'padded': back, 'flags': {},
+                                                                       'encoded_from': s_enc, 'pad_to_len': pad},
                          'detail': 'original -> %r, padded -> %r' % (a, c)})
     return {'evaluations': ev, 'distinct_nontrivial': nt,
             'rule': 'every token sequence of length <= %d over 12 covering symbols x every subset of [nop] insertion '
